@@ -160,6 +160,15 @@ def probe(typ, kind, key):
 SHARED_CACHE = {}
 
 
+def other_value(v):
+    "another well-typed value of the same shape"
+    if isinstance(v, dict):
+        return dict((k, other_value(x)) for k, x in v.items())
+    if isinstance(v, str):
+        return v.replace(':1', ':9') if ':1' in v else v + '9'
+    return v
+
+
 def check_state(typ, syn, kind, key, subset, top='MARKER'):
     """-> (list of violations, info)"""
     bad = []
@@ -230,6 +239,27 @@ def check_state(typ, syn, kind, key, subset, top='MARKER'):
         user2.pop('text', None) if user2.get('text', 0) is None else None
         if user2 != u0 or glob2 != g0:
             bad.append(('caller-dict-modified:expand', dict(layers=list(subset))))
+        if subset and key != 'jsx.enabled':
+            # the same layers and the same names once more, with other values (through the same cache): the new values show
+            user4, glob4 = copy.deepcopy(u0), copy.deepcopy(g0)
+            for d_ in [user4.get(kind, {})] + [sec.get(kind, {}) for sec in glob4.values()]:
+                if key in d_:
+                    d_[key] = other_value(d_[key])
+            user5 = copy.deepcopy(user4)
+            for kd in KINDS:
+                user5[kd] = fold(typ, syn, kd, user4, glob4)
+            if typ == 'stylesheet':
+                user4['cache'] = SHARED_CACHE
+            try:
+                a4 = expand(pr, user4, glob4)
+            except Exception as e:
+                a4 = 'EXC:' + type(e).__name__
+            try:
+                b4 = expand(pr, user5, {})
+            except Exception as e:
+                b4 = 'EXC:' + type(e).__name__
+            if a4 != b4:
+                bad.append(('expand-winner-after-value-change:%s' % kind, dict(key=key, probe=pr, layered=a4[:120], explicit=b4[:120], layers=list(subset))))
         if tables_now() != TABLES0:
             bad.append(('builtin-table-modified:expand', dict(layers=list(subset))))
         return bad, (repr(got.get(key, '<absent>'))[:40], a[:60])
